@@ -357,8 +357,53 @@ let walk seed count maxlen =
   done;
   Printf.printf "walk: %d steps, %d blocked registrations, %d hangs, invariant held\n" !steps !blocked !hangs
 
+(* ---------- exhaustive enumeration of all executable histories up to a depth ---------- *)
+let enum depth reduced hist_file exp_file =
+  let hf = open_out hist_file and ef = open_out exp_file in
+  let count = ref 0 in
+  let caps_e = [ "0"; "1"; "2"; "U" ] in
+  let obs_e = if reduced then [ "len" ] else [ "len"; "isfull"; "isempty"; "sendercount"; "receivercount"; "isclosed"; "isdisconnected"; "isterminated" ] in
+  List.iter (fun cap ->
+      let rec go (a : aconf) (ls : hl list) (os : out list) (d : int) (next_id : int) (next_tag : int) =
+        if ls <> [] then begin
+          let cls = classes.(!count mod Array.length classes) in
+          let flav = if !count land 1 = 0 then "S" else "A" in
+          set_class cls;
+          Printf.fprintf hf "H %d %s %s %s\n" !count cap cls flav;
+          Printf.fprintf ef "H %d\n" !count;
+          List.iter (fun l -> output_string hf (str_hl l); output_char hf '\n') (List.rev ls);
+          List.iter (fun o -> output_string ef (str_out o); output_char ef '\n') (List.rev os);
+          output_string hf "E\n"; output_string ef (trailer a); output_string ef "\nE\n";
+          incr count
+        end;
+        if d > 0 then begin
+          let hs = List.map (fun (h, s) -> (int_of_n h, s)) a.handles in
+          let of_side s = List.filter_map (fun (h, s') -> if s = s' then Some h else None) hs in
+          let first l = match l with x :: _ -> [ x ] | [] -> [] in
+          let ss = first (List.rev (of_side SSend)) and rs = first (List.rev (of_side SRecv)) in
+          let futs = List.filter_map (fun (k, o) -> match o.o_kind with KSendFut | KRecvFut | KStream -> Some (int_of_n k) | _ -> None) a.objs in
+          let cands =
+            List.concat_map (fun h -> [ HClone (h, next_id); HDropH h; HClose h ]) (ss @ rs)
+            @ List.concat_map (fun h -> List.map (fun o -> HObs (h, o)) obs_e) (ss @ rs)
+            @ List.concat_map (fun h ->
+                [ HSend (next_id, h, next_tag); HSendTo (next_id, h, next_tag); HTrySend (h, next_tag); HMkSend (next_id, h, next_tag) ]
+                @ (if reduced then [] else [ HSendOptTo (next_id, h, Some next_tag); HTrySendOpt (h, Some next_tag); HTrySendOpt (h, None);
+                                             HTrySendRT (h, next_tag); HTrySendOptRT (h, Some next_tag) ])) ss
+            @ List.concat_map (fun h ->
+                [ HRecv (next_id, h); HRecvTo (next_id, h, false); HTryRecv h; HDrain h; HMkRecv (next_id, h) ]
+                @ (if reduced then [] else [ HRecvTo (next_id, h, true); HTryRecvRT h; HMkStream (next_id, h) ])) rs
+            @ List.concat_map (fun f -> [ HPoll (f, 0); HPoll (f, 1); HDropF f ] @ (if reduced then [] else [ HStreamTerm f ])) futs in
+          List.iter (fun l ->
+              let a1, o = hstep a l in
+              if executable o then go a1 (l :: ls) (o :: os) (d - 1) (next_id + 1) (next_tag + 1)) cands
+        end in
+      go (init_of_cap cap) [] [] depth 2 1) caps_e;
+  close_out hf; close_out ef;
+  Printf.printf "%d\n" !count
+
 let () =
   match Array.to_list Sys.argv with
+  | [ _; "enum"; depth; reduced; hf; ef ] -> enum (int_of_string depth) (reduced = "1") hf ef
   | [ _; "h2check" ] -> H2check.run_h2check ()
   | [ _; "walk"; seed; count; maxlen ] -> walk (int_of_string seed) (int_of_string count) (int_of_string maxlen)
   | [ _; "run" ] -> run_stdin ()
